@@ -53,6 +53,13 @@ def decide_during_resume(ctx, execs):
         for rep in range(2 if ctx.quick else 6):
             items.append(({"nodes": [node, {"k": "step"}]}, {"seed": rng.randrange(1 << 30), "max_inv": 16, "api_latency": (0.05, 0.3)[rep % 2],
                                                             "hang_after": 700.0, "strategy": "pct" if rep % 2 else "random"}))
+    # a branch's timer fires while max_concurrency other bodies are running: the resumed body waits for a free worker
+    for maxc in (1, 2):
+        node = {"k": "map", "maxc": maxc, "caught": True,
+                "branches": [[{"k": "wait", "s": 1}, {"k": "step"}]] + [[{"k": "step", "dur": 4.0}] for _ in range(maxc + 1)] + [[{"k": "step"}]]}
+        for rep in range(2 if ctx.quick else 6):
+            items.append(({"nodes": [node, {"k": "step"}]}, {"seed": rng.randrange(1 << 30), "max_inv": 12, "api_latency": (0.0, 0.05)[rep % 2],
+                                                            "strategy": "pct" if rep % 2 else "random"}))
     out = run_campaign(ctx, items)
     for e in out:
         for fn in (c09, c09_decided_but_suspended, c09_returns_promptly, c09_resumed_on_time, oracles.c07):
